@@ -59,6 +59,7 @@ theorem created_iff (evs : List Ev) (q : List Str) :
       rcases hq with ⟨k, hk, rfl⟩
       exact ⟨_, hev, p, false, f, rfl, k, by omega, rfl⟩
     | leave p e => simp at hq
+    | skipped p e => simp at hq
   · rintro ⟨ev, hev, p, d, f, hi, k, hk, rfl⟩
     refine ⟨ev, hev, ?_⟩
     cases ev with
@@ -73,6 +74,7 @@ theorem created_iff (evs : List Ev) (q : List Str) :
       simp only [List.mem_map, List.mem_range]
       exact ⟨k, by omega, rfl⟩
     | leave p' e => simp [evItem] at hi
+    | skipped p' e => simp [evItem] at hi
 
 /-- a directory selected by include patterns is always traversed, so `leaveDir` never receives a
     nil name list for it (which would make `--delete` treat every entry as unexpected) -/
@@ -124,62 +126,107 @@ theorem exclude_exact (glob : Glob) (lists : List PatList) (hv : ValidLists glob
 
 /-! ## `--delete` -/
 
-/-- membership in `deletedTops`, spelled out -/
+/-- membership in `deletedTops`, spelled out: `removeUnexpectedFiles` ran for the parent directory
+    (from `leaveDir` or `skippedDir`), the entry existed, is not named in the snapshot listing of
+    that directory and is selected -/
 theorem deletedTops_iff (sel : List Str → Bool → Bool × Bool) (evs : List Ev) (pre : List (List Str))
     (e : List Str) :
     e ∈ deletedTops sel evs pre ↔
-      ∃ p exp, Ev.leave p exp ∈ evs ∧ e ∈ pre ∧ e.length = p.length + 1 ∧ isPrefix p e = true ∧
-        (exp.getD []).contains (e.getLast?.getD []) = false ∧ (sel e false).1 = true := by
+      ∃ ev ∈ evs, ∃ p exp, delDir ev = some (p, exp) ∧ e ∈ pre ∧ e.length = p.length + 1 ∧
+        isPrefix p e = true ∧ (exp.getD []).contains (e.getLast?.getD []) = false ∧ (sel e false).1 = true := by
   unfold deletedTops
   simp only [List.mem_flatMap]
   constructor
   · rintro ⟨ev, hev, he⟩
-    cases ev with
-    | leave p exp =>
+    cases hd : delDir ev with
+    | none => rw [hd] at he; simp at he
+    | some pe =>
+      obtain ⟨p, exp⟩ := pe
+      rw [hd] at he
       simp only [List.mem_filter, Bool.and_eq_true, decide_eq_true_eq, Bool.not_eq_true'] at he
-      exact ⟨p, exp, hev, he.1, he.2.1.1.1, he.2.1.1.2, he.2.1.2, he.2.2⟩
-    | enter p => simp at he
-    | visit p f => simp at he
-  · rintro ⟨p, exp, hev, h1, h2, h3, h4, h5⟩
-    refine ⟨_, hev, ?_⟩
+      exact ⟨ev, hev, p, exp, hd, he.1, he.2.1.1.1, he.2.1.1.2, he.2.1.2, he.2.2⟩
+  · rintro ⟨ev, hev, p, exp, hd, h1, h2, h3, h4, h5⟩
+    refine ⟨ev, hev, ?_⟩
+    rw [hd]
     simp only [List.mem_filter, Bool.and_eq_true, decide_eq_true_eq, Bool.not_eq_true']
     exact ⟨h1, ⟨⟨h2, h3⟩, h4⟩, h5⟩
 
-/-- FULL STATEMENT of the `--delete` part (NOT provable for the current code, see the negation
-    witness below and finding C20:delete:selected-stale-entry-survives): every pre-existing entry
-    directly inside a snapshot directory that the traversal reaches, which is not in that
-    directory's listing and is selected, is removed. -/
-def DeleteExactFull (sel : List Str → Bool → Bool × Bool) (root : List Node) (pre : List (List Str)) : Prop :=
-  ∀ e ∈ pre, ∀ parent, e.length = parent.length + 1 → isPrefix parent e = true →
-    (parent = [] ∨ HasItem [] root parent true false) → ChainT sel 0 e →
-    (∀ c ∈ entries [] root, c.path ≠ e) → (sel e false).1 = true →
-      e ∈ deletedTops sel (traverse sel root) pre
+/-- completeness of `--delete` for a list of visitor events: every pre-existing entry directly
+    inside a snapshot directory that the traversal reaches (the root included), which is not named
+    in that directory's listing and is selected, is removed -/
+def DeleteComplete (sel : List Str → Bool → Bool × Bool) (root : List Node) (evs : List Ev)
+    (pre : List (List Str)) : Prop :=
+  ∀ parent ns, (parent, ns) ∈ dirListings root →
+    (∀ k, 0 < k → k ≤ parent.length → (sel (parent.take k) true).2 = true) →
+    ∀ e ∈ pre, e.length = parent.length + 1 → isPrefix parent e = true →
+      ns.contains (e.getLast?.getD []) = false → (sel e false).1 = true →
+        e ∈ deletedTops sel evs pre
 
-/-- PROVED PART (`_partial`): only what should be removed is removed — a removed entry existed
-    before, lies directly inside a snapshot directory reached by the traversal (or the root) whose
-    `leaveDir` ran, is not named in that directory's listing, and is selected. What is missing for
-    the full statement is the converse in directories where nothing was restored. -/
-theorem delete_exact_partial (sel : List Str → Bool → Bool × Bool) (root : List Node)
+/-- FULL STRENGTH, completeness half (holds since the fix `skippedDir`, finding
+    C20:delete:selected-stale-entry-survives…; false before, see the negation witness below). -/
+theorem delete_complete (sel : List Str → Bool → Bool × Bool) (root : List Node) (pre : List (List Str)) :
+    DeleteComplete sel root (traverse sel root) pre := by
+  intro parent ns hmem hchain e he hlen hpre hns hsel
+  rw [deletedTops_iff]
+  unfold dirListings at hmem
+  unfold traverse
+  generalize htr : trList sel [] root = r
+  obtain ⟨evs, hr⟩ := r
+  simp only
+  rcases List.mem_cons.mp hmem with h | h
+  · -- the root directory
+    simp only [Prod.mk.injEq] at h
+    rcases h with ⟨rfl, rfl⟩
+    by_cases hh : hr = true
+    · exact ⟨Ev.leave [] (some (root.map Node.name)), by simp [hh], [], _, rfl, he, hlen, hpre, hns, hsel⟩
+    · exact ⟨Ev.skipped [] (some (root.map Node.name)), by simp [hh], [], _, rfl, he, hlen, hpre, hns, hsel⟩
+  · have hc : ChainT sel ([] : List Str).length parent := by
+      intro k h1 h2
+      exact hchain k (by simpa using h1) (by omega)
+    have hs : (sel parent true).2 = true := by
+      rcases dirListings_prefix [] root parent ns h with ⟨n, rest, hr'⟩
+      have := hchain parent.length (by rw [hr']; simp) (Nat.le_refl _)
+      rw [List.take_length] at this
+      exact this
+    rcases tr_list_deldir sel [] root parent ns h hc hs with ⟨ev, hev, hd⟩
+    rw [htr] at hev
+    exact ⟨ev, by simp only [List.mem_append]; exact Or.inl (Or.inr hev), parent, _, hd, he, hlen, hpre, hns, hsel⟩
+
+/-- soundness half: only what should be removed is removed — a removed entry existed before, is
+    selected, and lies directly inside a snapshot directory whose tree was handed to
+    `removeUnexpectedFiles` with a name list that does not contain the entry's name -/
+theorem delete_sound (sel : List Str → Bool → Bool × Bool) (root : List Node)
     (pre : List (List Str)) (e : List Str) (h : e ∈ deletedTops sel (traverse sel root) pre) :
     e ∈ pre ∧ (sel e false).1 = true ∧
-      ∃ parent exp, e.length = parent.length + 1 ∧ isPrefix parent e = true ∧
-        (parent = [] ∨ (HasItem [] root parent true false ∧ ChainT sel 0 parent)) ∧
-        Ev.leave parent exp ∈ traverse sel root ∧
-        (exp.getD []).contains (e.getLast?.getD []) = false := by
-  rcases (deletedTops_iff sel _ pre e).mp h with ⟨p, exp, hev, h1, h2, h3, h4, h5⟩
-  refine ⟨h1, h5, p, exp, h2, h3, ?_, hev, h4⟩
-  unfold traverse at hev
-  generalize htr : trList sel [] root = r at hev
-  obtain ⟨evs, hr⟩ := r
-  simp only [List.mem_append, List.mem_cons, List.not_mem_nil, or_false] at hev
-  rcases hev with (hev | hev) | hev
-  · cases hev
-  · have := tr_list_leave sel [] root p exp (by rw [htr]; exact hev)
-    exact Or.inr ⟨this.1, this.2.1⟩
-  · split at hev
-    · simp only [List.mem_singleton, Ev.leave.injEq] at hev
-      exact Or.inl hev.1
-    · simp at hev
+      ∃ (parent : List Str) (exp : Option (List Str)), e.length = parent.length + 1 ∧
+        isPrefix parent e = true ∧ (exp.getD []).contains (e.getLast?.getD []) = false := by
+  rcases (deletedTops_iff sel _ pre e).mp h with ⟨ev, _, p, exp, _, h1, h2, h3, h4, h5⟩
+  exact ⟨h1, h5, p, exp, h2, h3, h4⟩
+
+/-- with include patterns no reachability hypothesis is needed: a selected stale entry directly
+    inside ANY directory of the snapshot is removed (a match below a directory makes every
+    directory above it traversable, C28 `list_child_sound`) -/
+theorem include_delete_complete (glob : Glob) (lists : List PatList) (hv : ValidLists glob lists)
+    (root : List Node) (pre : List (List Str)) (parent ns : List Str)
+    (hmem : (parent, ns) ∈ dirListings root) (e : List Str) (he : e ∈ pre)
+    (hlen : e.length = parent.length + 1) (hpre : isPrefix parent e = true)
+    (hns : ns.contains (e.getLast?.getD []) = false)
+    (hsel : (selectInclude glob lists e false).1 = true) :
+    e ∈ deletedTops (selectInclude glob lists) (traverse (selectInclude glob lists) root) pre := by
+  apply delete_complete (selectInclude glob lists) root pre parent ns hmem _ e he hlen hpre hns hsel
+  intro k hk1 hk2
+  have hpe : e.take parent.length = parent := by
+    simp only [isPrefix, Bool.and_eq_true, decide_eq_true_eq, beq_iff_eq] at hpre
+    exact hpre.2
+  have hk : parent.take k = e.take k := by
+    rw [← hpe, List.take_take]
+    congr 1; omega
+  rw [hk]
+  apply selectInclude_child_sound glob lists hv (e.take k) (e.drop k) _ false
+  · rw [List.take_append_drop]; exact hsel
+  · intro h
+    have hl : (e.take k).length = k := by rw [List.length_take]; omega
+    rw [h] at hl; simp at hl; omega
 
 /-! ## tie T1: shape of the transcribed functions -/
 
@@ -205,30 +252,33 @@ def gl : Glob := fun p c => some (if p = ['*'] then decide ('/' ∉ c)
   else if p = "x*".toList then c.head? = some 'x' else p == c)
 
 example : traverse (selectInclude gl (exLists ["x*"])) exTree =
-    [.enter [], .visit ["b".toList, "x1".toList] true, .leave ["b".toList] (some ["x1".toList]),
+    [.enter [], .skipped ["a".toList] (some ["z".toList]),
+     .visit ["b".toList, "x1".toList] true, .leave ["b".toList] (some ["x1".toList]),
      .visit ["x".toList] true, .leave [] (some ["a".toList, "b".toList, "x".toList])] := by decide
 
-/-- the stale entry `b/xold` (selected, not in the snapshot) is removed … -/
+/-- both stale selected entries are removed … -/
 example : deletedTops (selectInclude gl (exLists ["x*"])) (traverse (selectInclude gl (exLists ["x*"])) exTree)
-    [["a".toList, "xold".toList], ["b".toList, "xold".toList]] = [["b".toList, "xold".toList]] := by decide
+    [["a".toList, "xold".toList], ["b".toList, "xold".toList]] =
+      [["a".toList, "xold".toList], ["b".toList, "xold".toList]] := by decide
 
-/-- … but the equally selected stale entry `a/xold` survives, because nothing below `a` is
-    restored and `leaveDir` is therefore not called for `a`: the full statement is false. -/
-example : ¬ DeleteExactFull (selectInclude gl (exLists ["x*"])) exTree
+/-- … whereas before the fix `a/xold` survived, because nothing below `a` is restored and
+    `leaveDir` is not called for `a`: completeness was false (negation witness, replayed on the
+    real code by the harness: `restore --include X.TXT --delete`). -/
+example : ¬ DeleteComplete (selectInclude gl (exLists ["x*"])) exTree
+    (traverseOld (selectInclude gl (exLists ["x*"])) exTree)
     [["a".toList, "xold".toList], ["b".toList, "xold".toList]] := by
   intro h
-  have := h ["a".toList, "xold".toList] (by simp) ["a".toList] (by decide) (by decide)
-    (Or.inr ⟨⟨["a".toList], true, false, 0⟩, by decide, rfl, rfl, rfl⟩)
+  have := h ["a".toList] ["z".toList] (by decide)
     (by intro k h1 h2
         have hk : k = 1 := by simp at h2; omega
         subst hk; decide)
-    (by decide) (by decide)
+    ["a".toList, "xold".toList] (by simp) (by decide) (by decide) (by decide) (by decide)
   revert this
   decide
 
-example : specDeleteOK (selectInclude gl (exLists ["x*"])) exTree false
+example : specDeleteOK (selectInclude gl (exLists ["x*"])) exTree true
     [["a".toList, "xold".toList], ["b".toList, "xold".toList]]
-    [[], ["b".toList], ["b".toList, "x1".toList], ["x".toList], ["a".toList, "xold".toList]] = true := by decide
+    [[], ["b".toList], ["b".toList, "x1".toList], ["x".toList]] = true := by decide
 
 example : specDeleteOK (selectInclude gl (exLists ["x*"])) exTree true
     [["a".toList, "xold".toList], ["b".toList, "xold".toList]]
